@@ -149,6 +149,8 @@ Definition set_verify_many (member : bool) (set g h : list Z) (b bt : Z) (Vd : Z
 (** ** inner-product argument alone *)
 Definition svec_eval (us : list Z) : list Z :=
   map BigZ.to_Z (svec TO (with_inv (map ofZ us))).
+Definition svec_iter_eval (us : list Z) : list Z :=
+  map BigZ.to_Z (svec_iter TO (with_inv (map ofZ us))).
 Definition ipa_eval (g h : list Z) (q : Z) (a b us : list Z) : list Z * list Z :=
   match ipa_prove TO (with_inv (map ofZ us)) (map ofZ g) (map ofZ h) (ofZ q)
                   (map ofZ a) (map ofZ b) with
